@@ -582,11 +582,29 @@ def s_add(vc):
         vc.ensure("add.focus_moves_only_if_follow", If(st.focus_follow, st.focus_flow() is t, st.focus_flow() is foc_before))
 
 
-@scenario("update", functions=[V + ".update", V + "._base_add", "mitmproxy.addons.view:_OrderKey.refresh", "mitmproxy.addons.view:_OrderKey.__call__", FOCUS + "._sig_view_remove", FOCUS + "._sig_view_add",
-                               FOCUS + ".index", V + "._rev", V + ".__getitem__"])
-def s_update(vc):
+_UPDATE_FUNCS = [V + ".update", V + "._base_add", "mitmproxy.addons.view:_OrderKey.refresh", "mitmproxy.addons.view:_OrderKey.__call__", FOCUS + "._sig_view_remove",
+                 FOCUS + "._sig_view_add", FOCUS + ".index", V + "._rev", V + ".__getitem__"]
+
+
+@scenario("update.hidden", functions=_UPDATE_FUNCS)
+def s_update_hidden(vc):
+    _update_contract(vc, "hidden")
+
+
+@scenario("update.visible", functions=_UPDATE_FUNCS)
+def s_update_visible(vc):
+    _update_contract(vc, "visible")
+
+
+@scenario("update.absent", functions=_UPDATE_FUNCS)
+def s_update_absent(vc):
+    _update_contract(vc, "absent")
+
+
+def _update_contract(vc, target_state):
+    """one contract text, one scenario per pre-state of the updated flow (explored in parallel)"""
     # the flow changed since it was last announced: its verdict, mark and sort keys are unrelated to its presence/cached keys
-    st = mk_state(vc, ["hidden", "visible", "absent"], loose=(0,))
+    st = mk_state(vc, [target_state], loose=(0,))
     t = st.flows[0]
     before = st.view_items()
     stored_before = st.store_ids()
